@@ -78,6 +78,25 @@ def staticMinIdx (m : Layout) (p : Nat → Int) : Nat :=
 def staticMaxIdx (m : Layout) (p : Nat → Int) : Nat :=
   (List.range m.length).foldl (fun best s => if s = 0 then m.phys 0 else if p best < p (m.phys s) then m.phys s else best) (m.phys 0)
 
+/-! ### packed pixels: equality looks at the channels, not at the bit field -/
+
+/-- the channel values of a packed pixel's bit field `f`: consecutive bit slices of the given widths starting at bit `lo` -/
+def channelsFrom (f lo : Nat) : List Nat → List Nat
+  | [] => []
+  | w :: ws => (f >>> lo) % 2 ^ w :: channelsFrom f (lo + w) ws
+
+def totalBits : List Nat → Nat
+  | [] => 0
+  | w :: ws => w + totalBits ws
+
+/-- `operator==` of two packed pixels of one type (`static_equal`: channel by channel; same layout on both sides) -/
+def packedEqual (widths : List Nat) (f g : Nat) : Bool := channelsFrom f 0 widths == channelsFrom g 0 widths
+
+/-- store channel values into consecutive slices of `f` (channel-wise assignment; every other bit of `f` stays) -/
+def putFrom (f lo : Nat) : List Nat → List Nat → Nat
+  | w :: ws, v :: vs => putFrom (f - ((f >>> lo) % 2 ^ w) * 2 ^ lo + (v % 2 ^ w) * 2 ^ lo) (lo + w) ws vs
+  | _, _ => f
+
 /-! ### the provided layouts (generated table) -/
 
 /-- look a provided layout up by its name (character codes): colour names and channel_mapping -/
